@@ -96,6 +96,8 @@ pub struct Ctx {
     pub tracing_guard: Option<tracing::subscriber::DefaultGuard>,
     pub table_len: Option<Box<dyn Fn() -> Option<usize>>>,
     pub panics: u64,
+    /// E2: commands from the simulator to the component under test.
+    pub comp_tx: Option<::tokio::sync::mpsc::UnboundedSender<(String, u64)>>,
 }
 
 impl Ctx {
@@ -147,6 +149,7 @@ impl Ctx {
             tracing_guard: None,
             table_len: None,
             panics: 0,
+            comp_tx: None,
         }
     }
 }
@@ -532,4 +535,11 @@ pub fn take_events() -> Vec<(u64, PluginEvent)> {
 
 pub fn push_event(ev: PluginEvent) {
     with(|c| c.push(ev));
+}
+
+pub fn comp_send(cmd: &str, arg: u64) -> bool {
+    with(|c| match &c.comp_tx {
+        Some(tx) => tx.send((cmd.to_string(), arg)).is_ok(),
+        None => false,
+    })
 }
